@@ -42,10 +42,19 @@ impl ProjCase {
     /// of file i's item.
     pub fn damage(&mut self, i: usize) {
         let d = &self.docs[i];
-        let close = d.laid.spans[d.rendered.body_close].0;
+        let h = crate::src::fnv1a(d.laid.text.as_bytes());
+        // position: before the closing brace, or (interfaces / parcelables) in front of a member
+        let n = d.rendered.members.len();
+        let is_enum = matches!(d.model.item, crate::model::ItemM::Enum(_));
+        let at_tok = if !is_enum && n > 0 && h % 3 != 0 {
+            d.rendered.members[(h >> 8) as usize % n].first_tok
+        } else {
+            d.rendered.body_close
+        };
+        let at = d.laid.spans[at_tok].0;
         let garbage = match &d.model.item {
-            crate::model::ItemM::Interface(_) => " void zz ( ) = 99999999999 ; ",
-            crate::model::ItemM::Parcelable(_) => " int ; ",
+            crate::model::ItemM::Interface(_) => [" void zz ( ) = 99999999999 ; ", " void zz ( ] ; ", " int zz ; "][(h >> 16) as usize % 3],
+            crate::model::ItemM::Parcelable(_) => [" int ; ", " void zz ( ) ; ", " = 3 ; "][(h >> 16) as usize % 3],
             crate::model::ItemM::Enum(e) => {
                 if e.elements.is_empty() || e.trailing_comma {
                     " 1 , "
@@ -55,7 +64,7 @@ impl ProjCase {
             }
         };
         let mut t = d.laid.text.clone();
-        t.insert_str(close, garbage);
+        t.insert_str(at, garbage);
         self.damaged[i] = Some(t);
     }
 
